@@ -104,8 +104,13 @@ REGISTRY['ext::copy.deepcopy'].dispatch = lambda args: (
 def _attach_wf(name):
   c = REGISTRY['selector_map.py::SelectorMap.' + name]
   c.skip_proof = None
-  c.require('representation_invariant', lambda x: WF(x.self_old))
-  c.require('names_are_determined_by_their_components', lambda x: comps_injective())
+  c.assume_entry('representation_invariant', lambda x: WF(x.self_old),
+                 'class invariant of SelectorMap: established by the constructor, preserved by '
+                 'clear/copy/__setitem__ (proved) and pop (not yet proved: bounded bC08); the '
+                 'private fields are touched only by the class\'s own methods (AST obligation)')
+  c.assume_entry('names_are_determined_by_their_components', lambda x: comps_injective(),
+                 "string fact: '.'.join(s.split('.')) == s, so a dotted name is determined by "
+                 'its components')
   return c
 
 
@@ -271,15 +276,19 @@ def lemmas(x, alive):
 
 c = _attach_wf('matching_selectors')
 c.local_kinds = {'selector_components': StrList, 'selectors': StrList}
-c.require('partial_selector_is_a_dotted_name', lambda x: valid(x.a.partial_selector.e))
-c.require('definition_of_ancestor', lambda x: anc_definition())
-c.require('definition_of_dotted_suffix', lambda x: dsuffix_definition())
-c.require('definition_of_depth', lambda x: depth_definition())
-c.require('valid_names_are_not_empty', lambda x: sym.forall(
-    [s_], z3.Implies(valid(s_), s_ != sym.str_lit('')), patterns=[valid(s_)]))
+c.assume_entry('definition_of_ancestor', lambda x: anc_definition(),
+               'definition of the spec function anc by structural recursion')
+c.assume_entry('definition_of_dotted_suffix', lambda x: dsuffix_definition(),
+               'definition: dsuffix(p, s) iff the path of p is an ancestor-or-equal of the path of s')
+c.assume_entry('definition_of_depth', lambda x: depth_definition(),
+               'definition of the spec function depth by structural recursion')
+c.assume_entry('valid_names_are_not_empty', lambda x: sym.forall(
+    [s_], z3.Implies(valid(s_), s_ != sym.str_lit('')), patterns=[valid(s_)]),
+    'regex fact: SELECTOR_RE does not match the empty string')
 c.ensure('tree_untouched', lambda x: SelTree.box(x.self_new.fields['_selector_tree']) ==
          SelTree.box(x.self_old.fields['_selector_tree']))
 c.notes.append('termination of the DFS is not proved (partial correctness)')
+c.assumptions.append("names passed to matching_selectors have no component equal to '$'")
 
 
 def _Lp(x):
@@ -299,6 +308,8 @@ def _walk_before(ex, x):
   alive = T(x.env.self)[0]
   x.path.assume(rp(StrList.box(L), z3.IntVal(0)) == nil)        # definition of rp
   i = z3.Int('i!sc')
+  # queried names never contain the terminal key '$' (they come from NAME tokens of the
+  # tokenizer or have passed MODULE_RE) -- assumed, listed in the evidence
   x.path.assume(sym.forall([i], z3.Implies(z3.And(0 <= i, i < L.len),
                                            L.arr[i] != sym.str_lit('$')), patterns=[L.arr[i]]))
   lemmas(x, alive)
